@@ -55,10 +55,14 @@ def handle (op : String) (a : Json) : Except String Json := do
     let marr : Array (Array Int) := (rows.map List.toArray).toArray
     let m : Nat → Nat → Bool := fun x y => ((marr.getD x #[]).getD y 0) != 0
     let loop := groupLoop (fun x => labs.getD x 0) n
+    -- `dense n adj x y = (coo n adj).count (x, y)` by definition; the coordinate list is computed once
+    let c := coo n adj
+    let d : Nat → Nat → Nat := fun x y => c.count (x, y)
+    let drows := (List.range n).map fun x => (List.range n).map fun y => Int.ofNat (d x y)
     return Json.mkObj [
-      ("matrix", boolJ (rows == (denseRows n adj).map (·.map Int.ofNat))),
+      ("matrix", boolJ (rows == drows)),
       ("contract", boolJ (componentsOK n m labs)),
-      ("pipeline", boolJ (componentsOK n (fun x y => dense n adj x y != 0) labs)),
+      ("pipeline", boolJ (componentsOK n (fun x y => d x y != 0) labs)),
       ("loop", boolJ (loop == gs)),
       ("loop_perm", boolJ (gs.isPerm loop))]
   | _ => .error s!"C13: unknown op {op}"
